@@ -32,6 +32,7 @@ type Exec struct {
 	inst     string // type instance of a generic function under verification ("jsonNode")
 	measure0 []measureComp
 	NoTermination bool
+	prodSubj []*Val // closure producing a stream: the subjects (its YieldsArgs at entry)
 }
 
 func (x *Exec) nextID() int { x.ids++; return x.ids }
